@@ -2042,7 +2042,7 @@ func IntLiteralRule(w *World, r *Result, rule string) {
 				seen := map[ssa.Value]bool{}
 				var back func(v ssa.Value, d int)
 				back = func(v ssa.Value, d int) {
-					if d > 6 || seen[v] || verdict == "bad" {
+					if d > 6 || seen[v] || verdict == "bad" || verdict == "base" {
 						return
 					}
 					seen[v] = true
@@ -2058,6 +2058,13 @@ func IntLiteralRule(w *World, r *Result, rule string) {
 					case *ssa.Call:
 						switch calleeName(x) {
 						case "strconv.Atoi", "strconv.ParseInt":
+							// in base ten: base 0 lets a leading zero select octal (010 is 8) and 0x hex
+							if calleeName(x) == "strconv.ParseInt" && len(x.Call.Args) >= 2 {
+								if k, ok := x.Call.Args[1].(*ssa.Const); !ok || k.Value == nil || k.Int64() != 10 {
+									verdict = "base"
+									return
+								}
+							}
 							if verdict == "" {
 								verdict = "ok"
 							}
@@ -2083,6 +2090,8 @@ func IntLiteralRule(w *World, r *Result, rule string) {
 				switch {
 				case verdict == "ok":
 					r.Ok(rule, key, w.Pos(st.Pos()), "integer literal value = result of strconv.Atoi / ParseInt on the token text")
+				case verdict == "base":
+					r.Bad(rule, key, w.Pos(st.Pos()), "the integer parser is not told base ten: with base 0 a leading zero selects octal (010 becomes 8, 08 is rejected) and 0x… hexadecimal – the literal no longer keeps the value its digits spell")
 				case verdict == "bad":
 					r.Bad(rule, key, w.Pos(st.Pos()), "the value of an integer literal passes through a floating-point number: literals above 2^53 are rounded (9007199254740993 becomes …992) and the largest int64 overflows")
 				default:
